@@ -1,6 +1,8 @@
 import XmppVerif.Drv.Core
+import XmppVerif.Drv.C15
 import XmppVerif.Drv.C17
 import XmppVerif.Drv.C19
+import XmppVerif.Drv.C20
 /-
 `driver <Cxx>`: line filter. stdin: `begin <id> [variant…]`, then op lines
 `f1<TAB>f2…<TAB>=><TAB>impl-observation`, then `end`. One output line per input line.
@@ -8,8 +10,10 @@ import XmppVerif.Drv.C19
 open XmppVerif.Drv
 
 def handlers : List (String × Handler) := [
+  ("C15", XmppVerif.Drv.C15.handler),
   ("C17", XmppVerif.Drv.C17.handler),
-  ("C19", XmppVerif.Drv.C19.handler)
+  ("C19", XmppVerif.Drv.C19.handler),
+  ("C20", XmppVerif.Drv.C20.handler)
 ]
 
 def splitLine (line : String) : List String × String :=
